@@ -1295,6 +1295,80 @@ Qed.
 
 End Noisy.
 
+(* ----- nondeterminism that is never caught: frames 0 and 1, check distances 0 and 1 ----- *)
+Section Blind.
+Variable F : Z.
+Hypothesis Hnoisy : st_noisy_at ck F.
+Hypothesis Hblind : d <= 1 \/ F <= 1.
+
+Lemma st_G_other_pos : forall n f, 0 <= f -> f <> F -> ck n (st_TLz f) = st_G f.
+Proof. intros n f H0 Hf. unfold st_G. apply (proj1 Hnoisy). rewrite st_TLz_length. lia. Qed.
+
+Definition IBS (c : Z) (s : st_state) (g : st_game) : Prop :=
+  FIa c s /\ st_tie s /\ GI c g /\
+  exists cs fr, CI c cs s /\ HI c fr (st_history s) /\
+    (forall f, 0 <= f -> f <> F -> cs f = st_G f /\ fr f = st_G f) /\
+    (F < c -> fr F = cs F).
+
+Lemma st_blind_step : forall c s g, 0 <= c -> (Z.to_nat c < length ins)%nat -> IBS c s g ->
+  exists s' g', st_call predict ck s g (nth (Z.to_nat c) ins []) = CallOk s' g' (st_expected_requests np d k ins c) /\
+    IBS (c + 1) s' g'.
+Proof.
+  intros c s g Hc Hlt (Fa & T & G & cs & fr & C & H & Hoth & HeqF).
+  assert (Hnew : 0 < d -> d < c -> forall f, c - d <= f <= c - 1 -> st_olddom c f = false -> fr f = cs f).
+  { intros Hd0 Hdc f Hf _. destruct (Z.eq_dec f F) as [->|Hne]; [apply HeqF; lia|].
+    destruct (Hoth f ltac:(lia) Hne) as [-> ->]. reflexivity. }
+  assert (Hbad : st_bad c cs fr = []).
+  { unfold st_bad. destruct ((0 <? d) && (d <? c)) eqn:Ec; [|reflexivity].
+    apply st_filter_none. intros x Hx. apply st_zrange_in in Hx.
+    destruct (st_olddom c x) eqn:Eo; [|reflexivity]. cbn [andb].
+    assert (Ex : fr x = cs x).
+    { destruct (Z.eq_dec x F) as [->|Hne]; [apply HeqF; unfold st_olddom in Eo; lia|].
+      destruct (Hoth x ltac:(lia) Hne) as [-> ->]. reflexivity. }
+    rewrite Ex, (proj2 (st_opt_eqb_eq (cs x) (cs x)) eq_refl). reflexivity. }
+  destruct (st_call_step c cs fr s g Hc Hlt Fa T C G H Hnew) as [_ Hok].
+  destruct (Hok Hbad) as (s' & g' & Ecall & F' & T' & C' & G' & H' & Hsv & _).
+  exists s', g'. split; [exact Ecall|].
+  set (cs' := st_vs_after (st_nsv c) (st_f0 c) (sg_saves g) cs) in *.
+  set (fr' := fun x => if (x =? F) && (c =? F) then cs' F else fr x).
+  split; [exact F'|]. split; [exact T'|]. split; [exact G'|].
+  exists cs', fr'. split; [exact C'|]. split.
+  { eapply HI_ext; [|exact H']. intros x Hx. subst fr'. cbv beta.
+    destruct ((x =? F) && (c =? F)) eqn:E; [|reflexivity]. unfold st_olddom in Hx. lia. }
+  split.
+  { intros f Hf0 Hf. split.
+    - subst cs'. unfold st_vs_after.
+      destruct ((st_f0 c <=? f) && (f <? st_f0 c + Z.of_nat (st_nsv c))); [apply st_G_other_pos; assumption|apply Hoth; assumption].
+    - subst fr'. cbv beta. assert ((f =? F) = false) as -> by lia. cbn [andb]. apply Hoth; assumption. }
+  intro HFc1. subst fr'. cbv beta. rewrite Z.eqb_refl. cbn [andb].
+  destruct (Z.eqb_spec c F) as [EcF|NcF]; [reflexivity|].
+  rewrite (HeqF ltac:(lia)). subst cs'. unfold st_vs_after.
+  assert ((st_f0 c <=? F) && (F <? st_f0 c + Z.of_nat (st_nsv c)) = false) as ->; [|reflexivity].
+  unfold st_f0. destruct ((0 <? d) && (d <? c)) eqn:E; lia.
+Qed.
+
+Lemma st_run_blind : forall rest c s g,
+  0 <= c -> skipn (Z.to_nat c) ins = rest -> IBS c s g ->
+  exists s' g', st_run predict ck s g rest =
+      RunOk s' g' (map (st_expected_requests np d k ins) (st_zrange c (length rest))).
+Proof.
+  induction rest as [|vs rest IH]; intros c s g Hc Hsk I.
+  - exists s, g. reflexivity.
+  - destruct (st_skipn_cons _ _ _ _ [] Hsk) as (Hnth & Hsk' & Hlt).
+    destruct (st_blind_step c s g Hc Hlt I) as (s1 & g1 & E & I1). rewrite Hnth in E.
+    destruct (IH (c + 1) s1 g1 ltac:(lia)) as (s' & g' & Er); auto.
+    { replace (Z.to_nat (c + 1)) with (S (Z.to_nat c)) by lia. exact Hsk'. }
+    exists s', g'. cbn [st_run length st_zrange map]. rewrite E, Er. reflexivity.
+Qed.
+
+Lemma IBS_init : IBS 0 st_s0 (st_game0 w).
+Proof.
+  destruct (st_s0_inv st_G) as (A & B & C & D & E).
+  split; [exact A|]. split; [exact B|]. split; [exact D|].
+  exists st_G, st_G. split; [exact C|]. split; [exact E|]. split; [intros; auto|]. reflexivity.
+Qed.
+End Blind.
+
 End Run.
 
 (* ================= the theorems ================= *)
@@ -1383,3 +1457,107 @@ Proof.
     intros c v Hin Hs. specialize (Hu c Hin). destruct c; try discriminate. inversion Hs; subst. exact Hu. }
   repeat split; auto; lia.
 Qed.
+
+Theorem st_blind_spot : forall predict ck np w d k ins F,
+  1 <= np -> 0 <= d < w -> 0 <= k -> k + d + 2 <= INPUT_QUEUE_LENGTH ->
+  st_noisy_at ck F -> d <= 1 \/ F <= 1 ->
+  Forall (fun vs => Z.of_nat (length vs) = np) ins ->
+  exists s0 s g,
+    st_new np w d k = Ok s0 /\
+    st_run predict ck s0 (st_game0 w) ins =
+      RunOk s g (map (st_expected_requests np d k ins) (st_zrange 0 (length ins))).
+Proof.
+  intros predict ck np w d k ins F Hnp Hd Hk Hcap Hnoisy Hblind Hins.
+  rewrite <- QLEN_is in Hcap.
+  destruct (st_run_blind predict ck np w d k ins Hnp Hd Hk Hcap Hins F Hnoisy Hblind ins 0 (st_s0 np w d k) (st_game0 w)
+              ltac:(lia) eq_refl) as (s & g & E).
+  - apply (IBS_init predict); assumption.
+  - exists (st_s0 np w d k), s, g. split; [apply (st_new_ok predict ck); exact Hnp|exact E].
+Qed.
+
+Theorem st_accepted_sessions : 1 <= DEFAULT_PLAYERS ->
+  forall cs n np w cd dl predict ck ins, Forall usize_call cs ->
+  run_calls cs FSyncTest = (n, Ok (SSyncTest np w cd dl)) ->
+  dl + cd + 2 <= INPUT_QUEUE_LENGTH -> st_deterministic ck ->
+  Forall (fun vs => Z.of_nat (length vs) = np) ins ->
+  exists s0 s g,
+    st_new np w cd dl = Ok s0 /\
+    st_run predict ck s0 (st_game0 w) ins =
+      RunOk s g (map (st_expected_requests np cd dl ins) (st_zrange 0 (length ins))).
+Proof.
+  intros Hdp cs n np w cd dl predict ck ins Hu Hrun Hcap Hdet Hins.
+  destruct (st_builder_gate Hdp cs n np w cd dl Hu Hrun) as (A1 & A2 & A3 & _).
+  destruct (st_no_false_alarm predict ck np w cd dl ins A1 A2 A3 Hcap Hdet Hins) as (s0 & s & g & E1 & E2 & _).
+  exists s0, s, g. auto.
+Qed.
+
+(* ---------- examples (evaluated in the kernel) ---------- *)
+Definition st_run_summary (r : st_runres) : list (list request) * option (Z * list Z) * bool :=
+  match r with
+  | RunOk _ _ outs => (outs, None, true)
+  | RunStop outs (CallMismatch _ c fs) => (outs, Some (c, fs), false)
+  | RunStop outs _ => (outs, None, false)
+  end.
+
+Lemma st_summary_ok : forall r outs, st_run_summary r = (outs, None, true) -> exists s g, r = RunOk s g outs.
+Proof.
+  intros [s g o|o why] outs H; cbn in H.
+  - inversion H; subst. eauto.
+  - destruct why; discriminate.
+Qed.
+
+Lemma st_summary_mismatch : forall r outs c fs, st_run_summary r = (outs, Some (c, fs), false) ->
+  exists s, r = RunStop outs (CallMismatch s c fs).
+Proof.
+  intros [s g o|o why] outs c fs H; cbn in H; [discriminate|].
+  destruct why; try discriminate. inversion H; subst. eauto.
+Qed.
+
+Definition ex_ck (n : nat) (tl : st_timeline) : option Z :=
+  Some (fold_right (fun fi a => fold_right (fun x b => fst x + 3 * b) (7 * a + 1) fi) 0 tl).
+Definition ex_ckn (F : Z) (n : nat) (tl : st_timeline) : option Z :=
+  if Z.of_nat (length tl) =? F then Some (Z.of_nat n) else ex_ck n tl.
+Definition ex_ins : list (list Z) := map (fun i => [Z.of_nat i; 2 * Z.of_nat i + 1]) (seq 0 20).
+
+Lemma ex_ckn_noisy : forall F, st_noisy_at (ex_ckn F) F.
+Proof.
+  intro F. split; intros n m tl H; unfold ex_ckn.
+  - assert ((Z.of_nat (length tl) =? F) = false) as -> by lia. reflexivity.
+  - rewrite H, Z.eqb_refl. intros Hn E. inversion E. lia.
+Qed.
+
+Lemma ex_clean_run :
+  st_deterministic ex_ck /\
+  Forall (fun vs => Z.of_nat (length vs) = 2) ex_ins /\
+  (exists s g, st_run (fun x => x) ex_ck (st_s0 2 5 3 1) (st_game0 5) ex_ins =
+     RunOk s g (map (st_expected_requests 2 3 1 ex_ins) (st_zrange 0 20))) /\
+  st_expected_requests 2 3 1 ex_ins 5 =
+    [RLoad 2; RAdvance [(1, Confirmed); (3, Confirmed)];
+     RSave 3; RAdvance [(2, Confirmed); (5, Confirmed)];
+     RSave 4; RAdvance [(3, Confirmed); (7, Confirmed)];
+     RSave 5; RAdvance [(4, Confirmed); (9, Confirmed)]].
+Proof.
+  split; [intros n m tl; reflexivity|]. split; [vm_compute; repeat constructor|].
+  split; [apply st_summary_ok; vm_compute; reflexivity|vm_compute; reflexivity].
+Qed.
+
+Lemma ex_noisy_caught :
+  st_noisy_at (ex_ckn 6) 6 /\
+  exists s, st_run (fun x => x) (ex_ckn 6) (st_s0 2 5 3 1) (st_game0 5) ex_ins =
+    RunStop (map (st_expected_requests 2 3 1 ex_ins) (st_zrange 0 8)) (CallMismatch s 8 [6]).
+Proof. split; [apply ex_ckn_noisy|]. apply st_summary_mismatch. vm_compute. reflexivity. Qed.
+
+Lemma ex_noisy_1_missed :
+  st_noisy_at (ex_ckn 1) 1 /\
+  exists s g, st_run (fun x => x) (ex_ckn 1) (st_s0 2 5 3 1) (st_game0 5) ex_ins =
+    RunOk s g (map (st_expected_requests 2 3 1 ex_ins) (st_zrange 0 20)).
+Proof. split; [apply ex_ckn_noisy|]. apply st_summary_ok. vm_compute. reflexivity. Qed.
+
+Lemma st_detection_bound : forall F d, 2 <= F -> 2 <= d -> Z.max F d + 2 <= F + d /\ F + d <= F + d + 2.
+Proof. intros F d HF Hd. split; lia. Qed.
+
+Lemma st_delay_bound_needed_full :
+  st_new 1 2 1 126 = Ok (st_s0 1 2 1 126) /\
+  st_run (fun x => x) (fun _ _ => None) (st_s0 1 2 1 126) (st_game0 2) [[1]; [1]; [1]] =
+    RunStop [[RSave 0; RAdvance [(0, Confirmed)]]; [RSave 1; RAdvance [(0, Confirmed)]]] CallPanic.
+Proof. split; [apply (st_new_ok (fun x => x) (fun _ _ => None)); lia|exact st_delay_bound_needed]. Qed.
